@@ -395,8 +395,10 @@ pub fn do_navigate_command_string(mathml: Element, nav_command: &'static str) ->
             // To prevent to infinite loop, we limit the number of tries
             const LOOP_LIMIT: usize = 3;
             let mut cumulative_speech = String::with_capacity(120);
+            // everything above this mark was pushed by the tries of this command
+            let stack_len_at_start = nav_state.position_stack.len();
             for loop_count in 0..LOOP_LIMIT {
-                match apply_navigation_rules(mathml, nav_command, &rules, &mut rules_with_context, &mut nav_state, loop_count) {
+                match apply_navigation_rules(mathml, nav_command, &rules, &mut rules_with_context, &mut nav_state, loop_count, stack_len_at_start) {
                     Ok( (speech, done)) => {
                         cumulative_speech = cumulative_speech + if loop_count==0 {""} else {" "} + speech.trim();
                         if done {
@@ -430,7 +432,7 @@ pub fn do_navigate_command_string(mathml: Element, nav_command: &'static str) ->
 
     fn apply_navigation_rules<'c, 'm:'c>(mathml: Element<'m>, nav_command: &'static str,
             rules: &Ref<SpeechRules>, rules_with_context: &mut SpeechRulesWithContext<'c, '_, 'm>, nav_state: &mut RefMut<NavigationState>,
-            loop_count: usize) -> Result<(String, bool)> {
+            loop_count: usize, stack_len_at_start: usize) -> Result<(String, bool)> {
         let context = rules_with_context.get_context();
         context.set_variable("MatchCounter", loop_count as f64);
 
@@ -510,35 +512,27 @@ pub fn do_navigate_command_string(mathml: Element, nav_command: &'static str) ->
                 // try again in loop
                 return Ok( (speech, false));
             } else {
-                pop_stack(nav_state, loop_count);
+                pop_stack(nav_state, stack_len_at_start);
                 // debug!("returning: '{}'", speech.clone() + " " + &node_speech);
                 return Ok( (speech + " " + &node_speech, true) );
             }
         } else {
-            pop_stack(nav_state, loop_count);
+            pop_stack(nav_state, stack_len_at_start);
             return Ok( (speech, true) );
         };
     }
 
-    fn pop_stack(nav_state: &mut NavigationState, count: usize) {
+    fn pop_stack(nav_state: &mut NavigationState, stack_len_at_start: usize) {
         // save the final state and pop the intermediate states that did nothing
-        if count == 0 {
+        // Only the positions pushed by the tries of this command are intermediate states. A try that pushed nothing
+        //   (e.g., ToggleSpeakMode being tried again) must not cost an older position -- MoveLastLocation needs it.
+        if nav_state.position_stack.len() <= stack_len_at_start + 1 {
             return;
         }
 
         let (top_position, top_command) = nav_state.pop().unwrap();
-        let mut count = count-1;
-        loop {
-            // debug!("  ... loop count={}", count);
-            let (_, nav_command) = nav_state.top().unwrap();
-            if (nav_command.starts_with("Move") || nav_command.starts_with("Zoom")) && nav_command != "MoveLastLocation" {
-                nav_state.pop();
-            }
-            if count == 0 {
-                break;
-            };
-            count -= 1;
-        };
+        nav_state.position_stack.truncate(stack_len_at_start);
+        nav_state.command_stack.truncate(stack_len_at_start);
         nav_state.push(top_position, top_command);
     }
 }
